@@ -1249,7 +1249,7 @@ class TripletSTDP(IndependentCellTrainer):
             x_b = (
                 monitors["trace_pre_slow"].reducer.data_.select(
                     cell.connection.selector,
-                    monitors["trace_post_slow"].interpolate,
+                    monitors["trace_pre_slow"].reducer.interpolate,
                     tolerance=state.tolerance,
                     offset=2,
                 )
@@ -1777,7 +1777,7 @@ class StableTripletSTDP(IndependentCellTrainer):
             x_b = (
                 monitors["trace_pre_slow"].reducer.data_.select(
                     cell.connection.selector,
-                    monitors["trace_post_slow"].interpolate,
+                    monitors["trace_pre_slow"].reducer.interpolate,
                     tolerance=state.tolerance,
                     offset=2,
                 )
